@@ -1,4 +1,6 @@
-from ..progmc import driver
+from .. import pool
+from ..core import Violation
+from ..progmc import driver, placement
 
 P = "C02"
 
@@ -6,8 +8,24 @@ P = "C02"
 def run(tier, seed):
     items = driver.plan(tier, P)
     res, outs = driver.run_plan(P, "model_checking", items)
+    pitems = placement.placement_plan(tier)
+    nsteps = 0
+    for probs, n in pool.pmap(placement.placement_job, pitems, chunk=2):
+        nsteps += n
+        for prop, key, what, case in probs:
+            if prop == P:
+                res.violations.append(Violation(P, key, what, case))
+    res.coverage["transitions"] += nsteps
+    res.coverage["traces_validated_against_impl"] += nsteps
+    res.coverage["placement_runs"] = {"programs_x_entries_x_placements": len(pitems), "steps": nsteps}
+    res.coverage["rule"] = ("all histories of (variant, in-process edit | restart | copy to another accepted package, entry) incl. entry-style switches over the "
+                            "program family; after every evaluation the log may contain a kept function only if the cone fingerprint of one of its nodes was "
+                            "not evaluated before on this store; + the same programs as __main__ scripts and IPython cells through (A, B, A, A)")
     return res
 
 
 def replay(case):
+    if case.get("mode") == "placement":
+        probs, _ = placement.placement_job([(case["spec"], case["entry"], case["placement"])])[0]
+        return [Violation(P, k, w, case) for pr, k, w, _ in probs if pr == P]
     return driver.replay(P, case)
